@@ -87,7 +87,7 @@ def sym(E, p, kf):
         if p.get("three"):
             c["c3"] = c14.gen_vals(E, E.concretize(E.int("m3", 1, 2)), "int64", "c")
     elif kind in ("rs", "sr", "opr"):
-        c["s"] = E.int("s", -100, 100)
+        c["s"] = E.int("s", -100 if not dta.startswith("u") else 0, 100)          # a python integer outside the element type is refused by numpy itself (NEP 50): not this property
     elif kind == "rr_shared":
         c["s"], c["s2"] = E.int("s", -100, 100), E.int("s2", -100, 100)
     elif kind == "reduce_derived":
